@@ -622,12 +622,6 @@ proof fn lemma_list_end(d: DFA, rep: Map<u32, u32>, ts: Seq<Transition>, rowk: S
     }
 }
 
-/// every state other than the start state is the target of some transition
-#[verifier::opaque]
-spec fn all_have_pred(d: DFA) -> bool {
-    forall|s: u32| #[trigger] is_end(d, s) && s != d.starting_state ==> exists|p: u32, a: InpId| #[trigger] used(d, p, a) && d.transitions@[p][a] == s
-}
-
 /// a list of cells of the table, each at most once
 spec fn lists_cells(d: DFA, l: Seq<Transition>) -> bool {
     det(l) && (forall|m: int| 0 <= m < l.len() ==> used(d, (#[trigger] l[m]).from, l[m].input))
